@@ -244,6 +244,9 @@ func ProfileFor(prop, tier string, seed uint64) *Profile {
 		pf.Boundary = 3
 		pf.FlushImgs = 2 // mostly the flush right after a refused statement, torn before the header
 		pf.StrictFlushOnly = true
+		pf.WRaw = 8 // raw INSERT / UPDATE / DELETE with odd WHERE clauses and column lists: if refused, nothing may change
+		pf.RawMutations = true
+		pf.RawDMLOnly = true
 		pf.Stmts = [2]int{10, 40}
 		pf.TickModes = []string{"none", "each", "random"}
 	case "C15":
